@@ -1,14 +1,133 @@
 (** C08 over modelled pipelines: the direct line for [preprocessing(cfg)] and the loader computed from
     (file lines, pipeline configuration, tokenizer, seed, epoch, skip, limit, rank, world, fast-forward,
-    batching configuration) alone.  Definitions only: the dispatch of the three kinds of case of the C08
-    check (scenario with an oracle table / direct preprocessing / exact loader). *)
-From TU Require Import RNG_Model.
-From TU Require Import Base C08_Model Pipeline_Model.
+    batching configuration) alone.  Definitions only.
 
+    [loader_run] is [TrainLoader::init_iter] + drain (src/data/mod.rs:970-1018) with every stage modelled:
+      generator (C07_Model: [run_gen] / [run_gen_seeded], seeded with seed + epoch)
+      -> enumerate / take(limit) / skip(skip + ff + rank) / step_by(world)   (C08_Model.sel)
+      -> drop unparsable lines -> pipeline (Pipeline_Model, item seed = seed + epoch + position) -> drop Err
+         (= C08_EndToEnd.loader_items for the pipeline [pipe_fn])
+      -> Batched seeded with seed + epoch ([C06_Seeded.batches_seeded]: C06_Model's [build_batch] with the two draws
+         taken from RNG_Model: [shuffle] of the buffer, [random_range] over the sub-sequences)
+    The threaded stages (pipe, buffered) and tensorize are transparent (C05/C09).  *)
+From TU Require Import RNG_Model.
+From TU Require Import Base C01_Model C06_Model C06_Seeded C07_Model C08_Model C08_EndToEnd Pipeline_Model.
+Local Open Scope nat_scope.
+
+(** * the loader *)
+(** a line of a jsonl file: [None] = the line is no json object with a string "input" (and string or no "target") *)
+Definition line := option item.
+
+(** the generator's output: (file index, line) in the order of [MultiTrainDataGenerator], seeded for the
+    weighted strategy; [None] = the rejection sampler ran out of fuel (see notes/RNG.md) *)
+Definition gen_lines (s : strategy) (seed : N) (files : list (list line)) : option (C07_Model.res line) :=
+  match s with
+  | Weighted => run_gen_seeded seed files
+  | _ => Some (run_gen s (fun _ _ => 0) files)
+  end.
+
+(** what [filter_map(data.ok() ..)] sees at a position: the parsed item with its file index *)
+Definition data_of_out (out : list (nat * line)) : list (option (nat * item)) :=
+  map (fun p => option_map (pair (fst p)) (snd p)) out.
+
+Section Loader.
+Variable opq : nat -> item -> info -> res (item * info).
+Variables (p : pcfg) (g : bool) (b : base) (seed epoch : N).
+
+(** the pipeline applied to the item of global position [i]: [None] = Err (dropped with a warning).
+    A panic of the pipeline is kept apart: it ends the run ([loader_panics]). *)
+Definition pipe_res (i : nat) (d : nat * item) : res titem :=
+  pipeline opq p g b (snd d) (item_info seed epoch i (fst d)).
+Definition pipe_fn (i : nat) (d : nat * item) : option titem :=
+  match pipe_res i d with ROk t => Some t | _ => None end.
+
+Definition is_panic {X} (r : res X) : bool := match r with RPanic _ => true | _ => false end.
+
+(** some selected position's pipeline call panics *)
+Definition loader_panics (data : list (option (nat * item))) (lim skip ff rank W : nat) : bool :=
+  existsb (fun i => match nth i data None with Some d => is_panic (pipe_res i d) | None => false end)
+          (sel lim skip ff rank W (length data)).
+
+Definition tsize (x : nat * titem) : nat := length (t_ids (snd x)).
+
+Inductive lres :=
+| LOk (min_items : nat) (batches : list (list (nat * titem)))
+| LCtor                (* the constructor of the generator / pipeline refuses: [init_iter] returns Err or panics *)
+| LPanic               (* a pipeline call panics *)
+| LFuel.               (* some explicit fuel ran out (never; see the theorems) *)
+
+Definition loader_run (s : strategy) (files : list (list line)) (lim skip ff rank W : nat)
+           (sort shuffle : bool) (prefetch blim : nat) (ty : limit_type) : lres :=
+  if negb (pcfg_ok p) then LCtor else
+  match gen_lines s (seed + epoch)%N files with
+  | None => LFuel
+  | Some (C07_Model.Err C07_Model.CtorErr) => LCtor
+  | Some (C07_Model.Err _) => LFuel
+  | Some (C07_Model.Ok out) =>
+      let data := data_of_out out in
+      if loader_panics data lim skip ff rank W then LPanic else
+      match batches_seeded tsize sort shuffle prefetch blim ty (seed + epoch)%N
+                      (loader_items data pipe_fn lim skip ff rank W) with
+      | C06_Model.Ok bs => LOk (min_items lim skip (length data)) bs
+      | C06_Model.Err _ => LFuel
+      end
+  end.
+End Loader.
+
+(** * val glue *)
 Definition kind (v : val) : Z := v_z (v_nth 0 v).
 
+(** a line: () | (input target) *)
+Definition v_line (v : val) : line :=
+  match v with
+  | L [i; t] => Some (mk_item (v_str i) (v_str t))
+  | _ => None
+  end.
+Definition v_files (v : val) : list (list line) := v_list (v_list v_line) v.
+
+(** tokenizer = (tokens pad prefix suffix padto?) : a byte tokenizer's special configuration *)
+Definition v_base (v : val) : option base :=
+  byte_base (v_list v_str (v_nth 0 v)) (v_opt v_n (v_nth 4 v)) (v_str (v_nth 1 v))
+            (v_list v_str (v_nth 2 v)) (v_list v_str (v_nth 3 v)).
+
+Definition titem_v (x : nat * titem) : val :=
+  let t := snd x in
+  L [str_v (it_in (t_data t)); str_v (it_tg (t_data t)); list_v n_v (t_ids t); list_v z_v (t_labels t)].
+
+(** exact loader line.
+    input  = (-2 files strategy (seed-hi seed-lo) epoch pcfg (g tokenizer) lim skip ff rank W sort shuffle prefetch blim ty threads buffer threads2 buffer2)
+             lim < 0: no limit; strategy 0 sequential 1 interleaved 2 weighted
+    output = (1 min_items batches same) | (0) init fails | (-777) a pipeline call panics | (-4) fuel | (-5) outside the model
+             batches: lists of items (input target token_ids labels); same = 1: a second run with
+             (threads2, buffer2) gave the same batches and tensors *)
+Definition run_loader (v : val) : val :=
+  let files := v_files (v_nth 1 v) in
+  let s := v_strategy (v_nth 2 v) in
+  let seed := v_hl (v_nth 3 v) in
+  let epoch := v_n (v_nth 4 v) in
+  let p := v_pcfg (v_nth 5 v) in
+  let g := v_bool (v_nth 0 (v_nth 6 v)) in
+  let total := length (concat files) in
+  let has_op := match p with PGlobal c => has_opaque c | PPerSource l => existsb has_opaque l end in
+  match v_base (v_nth 1 (v_nth 6 v)) with
+  | None => L [I 0%Z]       (* the tokenizer's constructor fails: [train_pipeline] panics in [from_files] *)
+  | Some b =>
+    if negb (pcfg_dom p) || has_op then v_outside else
+    match loader_run opq_none p g b seed epoch s files
+                     (v_lim total (v_nth 7 v)) (v_nat (v_nth 8 v)) (v_nat (v_nth 9 v)) (v_nat (v_nth 10 v))
+                     (v_nat (v_nth 11 v)) (v_bool (v_nth 12 v)) (v_bool (v_nth 13 v)) (v_nat (v_nth 14 v))
+                     (v_nat (v_nth 15 v)) (v_ty (v_nth 16 v)) with
+    | LOk m bs => L [I 1%Z; nat_v m; list_v (list_v titem_v) bs; I 1%Z]
+    | LCtor => L [I 0%Z]
+    | LPanic => v_panic
+    | LFuel => L [I (-4)%Z]
+    end
+  end.
+
 Definition run_C08x (v : val) : val :=
-  if Z.eqb (kind v) (-1) then run_preproc v else run_C08 v.
+  if Z.eqb (kind v) (-1) then run_preproc v
+  else if Z.eqb (kind v) (-2) then run_loader v
+  else run_C08 v.
 
 (** direct line: shape, and the repeated calls gave the same result (the item is a function of (cfg, item, info)) *)
 Definition check_preproc (v o : val) : bool :=
@@ -20,8 +139,18 @@ Definition check_preproc (v o : val) : bool :=
   | _ => false
   end.
 
+(** exact loader line: shape, and the second run (other thread count / buffer size) was identical *)
+Definition check_loader (v o : val) : bool :=
+  match o with
+  | L [I 0%Z] => true
+  | L [I 1%Z; I _; L _; I 1%Z] => true
+  | _ => false
+  end.
+
 Definition check_C08x (v o : val) : bool :=
-  if Z.eqb (kind v) (-1) then check_preproc v o else check_C08 v o.
+  if Z.eqb (kind v) (-1) then check_preproc v o
+  else if Z.eqb (kind v) (-2) then check_loader v o
+  else check_C08 v o.
 
 Definition agree_C08x (v m o : val) : bool :=
-  if Z.eqb (kind v) (-1) then val_eqb m o else agree_C08 v m o.
+  if (Z.eqb (kind v) (-1) || Z.eqb (kind v) (-2))%bool then val_eqb m o else agree_C08 v m o.
